@@ -64,7 +64,7 @@ TNew == /\ E.ev = "ind_new"
         /\ E.valid = TRUE /\ E.res \in {"ok", "err"}    \* generated configurations are valid; whether every valid one initialises is C10's claim
         /\ LET c == Cn(E.c)  cf == CfgOf(E.cfg)
            IN  /\ name' = E.name /\ cfg' = cf
-               /\ st' = IF CHECK_VALUES /\ E.name \in SpecifiedValues THEN IInit(E.name, cf, c) ELSE <<>>
+               /\ st' = IF (CHECK_VALUES /\ E.name \in SpecifiedValues) \/ (CHECK_RANGES /\ E.name \in RangeNeedsSpec) THEN IInit(E.name, cf, c) ELSE <<>>
                /\ sg' = IF CHECK_SIGNALS /\ E.name \in SpecifiedSignals THEN ISigInit(E.name, cf, c) ELSE <<>>
                /\ P' = CMag(c) /\ V' = FxAbs(c.v)
         /\ t' = 0 /\ K' = E.k /\ live' = (E.res = "ok") /\ mute' = FALSE
@@ -83,6 +83,12 @@ TNext == /\ E.ev = "ind_next" /\ live
                            /\ st' = r.st
                            /\ Len(r.vals) = Len(E.v)
                            /\ \A i \in 1..Len(E.v) : Accept(E.v[i], r.vals[i], t + 1)
+                   ELSE IF CHECK_RANGES /\ name \in RangeNeedsSpec
+                   \* a volume-normalised quantity is asserted to be in range where its formula is DEFINED: the exact sums of the
+                   \* values specification say where (its expectation there is a quotient with a denominator away from 0)
+                   THEN \E r \in {IStep(name, cfg, st, c, p2, v2)} :
+                           /\ st' = r.st
+                           /\ RangeOKDefined(name, E.v, r.vals)
                    ELSE st' = st
                 \* a non-numeric value after the first step (0/0, or a radicand made negative by the residue of running sums) leaves
                 \* the signal machine, which is specified on defined values, without a defined state: the rest of the program is muted
